@@ -1,4 +1,5 @@
 import Proofs.C01Expr
+import Proofs.C01Stmt
 import GoawkModel.C01Conc
 /-! # C01 — the concrete semantics `semC` satisfies the laws assumed by the Stage A theorem (non-vacuity) -/
 namespace GoawkModel.C01
@@ -75,5 +76,50 @@ theorem semC_laws (b : Bool) : Laws (semC b) where
   idx_multi_r c n u w h := l_mr b c n u w h
   concat_stable _ _ _ _ := rfl
   concatMulti_spec v1 v2 rest w := l_cm b v1 v2 rest w
+
+theorem getNth_setNth {α} [Inhabited α] : ∀ (l : List α) (a : Nat) (v : α), getNth (setNth l a v) a = v
+  | [], 0, v => by simp [setNth, getNth]
+  | [], a+1, v => by simpa [setNth, getNth] using getNth_setNth [] a v
+  | _ :: l, 0, v => by simp [setNth, getNth]
+  | _ :: l, a+1, v => by simpa [setNth, getNth] using getNth_setNth l a v
+
+theorem setNth_setNth {α} [Inhabited α] : ∀ (l : List α) (a : Nat) (v v' : α), setNth (setNth l a v) a v' = setNth l a v'
+  | [], 0, v, v' => by simp [setNth]
+  | [], a+1, v, v' => by simp [setNth, setNth_setNth [] a v v']
+  | _ :: l, 0, v, v' => by simp [setNth]
+  | _ :: l, a+1, v, v' => by simp [setNth, setNth_setNth l a v v']
+
+theorem arrSet_fresh (arr : List (Bytes × CV)) (k : Bytes) (x : CV) (h : arrLookup arr k = none) :
+    arrSet (arrSet arr k .null) k x = arrSet arr k x := by
+  have hn : ∀ p ∈ arr, ¬ (p.1 = k) := by
+    intro p hp
+    simp only [arrLookup, Option.map_eq_none_iff, List.find?_eq_none] at h
+    simpa using h p hp
+  have hany : arr.any (fun p => decide (p.1 = k)) = false := by
+    simp only [List.any_eq_false]; intro p hp; simpa using hn p hp
+  have hmap : arr.map (fun p => if p.1 = k then (k, x) else p) = arr := by
+    conv => rhs; rw [← List.map_id arr]
+    apply List.map_congr_left
+    intro p hp; simp [hn p hp]
+  simp [arrSet, hany, hmap]
+
+theorem l_set_get (sc : AScope) (a : Nat) (i x : CV) (w : CW) :
+    (semC false).setArr sc a i x ((semC false).getArr sc a i w).2 = (semC false).setArr sc a i x w := by
+  cases sc with
+  | loc => rfl
+  | global =>
+    simp only [semC]
+    cases hl : arrLookup (getNth w.arrays a) (toStr i) with
+    | some v => simp
+    | none =>
+      simp only [getNth_setNth, setNth_setNth]
+      rw [arrSet_fresh _ _ _ hl]
+
+theorem semC_stmtLaws : StmtLaws (semC false) where
+  aug_eq _ _ _ := rfl
+  incr_eq dec v := by
+    cases dec <;> simp [semC, incrArith, Conc.arith, NumC.one, toNum] <;> omega
+  incr_plus dec v := by cases dec <;> simp [semC, toNum]
+  set_get sc a i x w := l_set_get sc a i x w
 
 end GoawkModel.C01
